@@ -70,7 +70,7 @@ def make_framework_handlers():
 
 
 #: real hashers: (name, cost values that are cheap enough to really hash with, quirk)
-REAL = [("sha256_crypt", 3000, "none"), ("sha512_crypt", 3000, "none"), ("sha1_crypt", 3000, "none"), ("pbkdf2_sha256", 5000, "none"),
+REAL = [("bcrypt", 5, "none"), ("sha256_crypt", 3000, "none"), ("sha512_crypt", 3000, "none"), ("sha1_crypt", 3000, "none"), ("pbkdf2_sha256", 5000, "none"),
         ("pbkdf2_sha1", 5000, "none"), ("bcrypt", 5, "none"), ("bsdi_crypt", 3001, "odd"), ("phpass", 9, "none"),
         ("md5_crypt", 0, "none"), ("django_pbkdf2_sha256", 5000, "none"), ("ldap_sha256_crypt", 3000, "none"),
         ("grub_pbkdf2_sha512", 3000, "none"), ("fshp", 3000, "none"), ("cta_pbkdf2_sha1", 3000, "none"), ("scram", 3000, "none")]
@@ -83,6 +83,7 @@ def handler_facts(h):
     if has_rounds:
         f.update(hmin=w.min_rounds, hmax=w.max_rounds or 0, d=w.default_rounds if w.default_rounds is not None else UNSET,
                  cost=w.rounds_cost)
+    f["trunc"] = getattr(w, "truncate_size", None)
     f.update(smin=getattr(w, "min_salt_size", 0) or 0, smax=getattr(w, "max_salt_size", 0) or 0,
              sdef=getattr(w, "default_salt_size", None))
     return f
@@ -101,12 +102,13 @@ def abstract_node(cls):
     else:
         vk, vv = "int", v
     return dict(minD=o(getattr(w, "min_desired_rounds", None)), maxD=o(getattr(w, "max_desired_rounds", None)),
-                d=o(getattr(w, "default_rounds", None)), varyK=vk, varyV=vv, sdef=getattr(w, "default_salt_size", None))
+                d=o(getattr(w, "default_rounds", None)), varyK=vk, varyV=vv, sdef=getattr(w, "default_salt_size", None),
+                te=bool(getattr(w, "truncate_error", False)) if getattr(w, "truncate_size", None) else False)
 
 
 def spec_node(t):
     p, s = t["p"], t["s"]
-    return dict(minD=p["minD"], maxD=p["maxD"], d=p["def"], varyK=p["varyK"], varyV=p["varyV"], sdef=s["sdef"])
+    return dict(minD=p["minD"], maxD=p["maxD"], d=p["def"], varyK=p["varyK"], varyV=p["varyV"], sdef=s["sdef"], te=t["te"])
 
 
 def parse_rounds_salt(cls, h):
@@ -175,6 +177,8 @@ def replay_beh(chk, label, root, beh, facts, cheap, rnd):
         detail = {}
         if op == "using":
             kws = kwargs_from(st["kw"], st["size"], st["relaxed"], rnd, has_salt)
+            if st["te"] != "unset":
+                kws["truncate_error"] = rnd.choice([st["te"] == "true", st["te"]])
             detail["kwargs"] = {a: repr(b) for a, b in kws.items()}
             try:
                 new = cls.using(**kws)
@@ -203,6 +207,16 @@ def replay_beh(chk, label, root, beh, facts, cheap, rnd):
                 drawn = [c for c in fr.calls]
                 rr, ss = parse_rounds_salt(cls, h)
                 got = "ok"
+                if facts.get("trunc"):
+                    from passlib.exc import PasswordTruncateError
+                    try:
+                        with ForcedRng(st["x"]):
+                            cls.hash("x" * (facts["trunc"] + 1))
+                        refused = False
+                    except PasswordTruncateError:
+                        refused = True
+                    if refused != st["tree"][st["node"] - 1]["te"]:
+                        got = "truncate-policy=" + str(refused)
                 detail.update(hash=h, rounds=rr, salt_size=ss)
                 if rr != r:
                     got = f"rounds={rr}"
@@ -309,7 +323,7 @@ def run(chk):
     # 1. exhaustive
     for cost, quirk, vals in (("linear", "none", range(0, 9)), ("log2", "none", {2, 3, 4, 5, 6, 7}), ("linear", "odd", range(1, 8))):
         consts = dict(Base=base_expr(2, 6, UNSET, UNSET, 4, cost, quirk), SBase=sb, Vals=set(vals) if not quick else {1, 2, 3, 5, 6, 7},
-                      SVals={0, 2, 5, 8, 9}, Pcts={10, 50, 100}, VKs=VKS, MaxNodes=2, MaxSteps=2, DoEmit=False)
+                      SVals={0, 2, 5, 8, 9}, Pcts={10, 50, 100}, VKs=VKS, HasTrunc=False, MaxNodes=2, MaxSteps=2, DoEmit=False)
         r = tlc.run_instance("MC_Hasher", consts, name="C09_mc", invariants=INVS, properties=PROPS, action_constraint="Emit", view="View",
                              coverage=False, timeout=3000)
         chk.add_tlc(f"MC_Hasher exhaustive cost={cost} quirk={quirk}", r)
@@ -354,7 +368,7 @@ def run(chk):
         a0 = abstract_node(root)
         consts = dict(Base=base_expr(f["hmin"], f["hmax"] if f["hmax"] < 2 ** 31 - 1 else 0, a0["minD"], a0["maxD"], a0["d"] if a0["d"] < 2 ** 31 - 1 else UNSET,
                                      f["cost"], quirk, a0["varyK"], a0["varyV"]),
-                      SBase=sexpr, Vals=V, SVals=SV, Pcts=pcts, VKs=VKS, MaxNodes=4, MaxSteps=8, DoEmit=True)
+                      SBase=sexpr, Vals=V, SVals=SV, Pcts=pcts, VKs=VKS, HasTrunc=bool(f.get("trunc")), MaxNodes=4, MaxSteps=8, DoEmit=True)
         n = nb * (3 if label.startswith("fw") else 1)
         r = tlc.run_instance("MC_Hasher", consts, name="C09_sim", invariants=INVS, action_constraint="Emit", next="SimNext",
                              simulate=f"num={n}", depth=8, seed=chk.seed + 100 + ti, workers=1, coverage=False, timeout=3000)
